@@ -524,13 +524,19 @@ def Key (pw salt : Bytes) (n r p keyLen : Int) : Res :=
           | some k => .ok k
     | _, _ => .panic
 
-/-- RFC 7914 §6 on top of L2 (`useRfc = false`) or L3 (`useRfc = true`) -/
-def scryptSpec (useRfc : Bool) (pw salt : Bytes) (n r p dkLen : Nat) : Option Bytes := do
-  let b := pbkdf2Blocks pw salt 1 ((p * 128 * r + 31) / 32) 1 |>.take (p * 128 * r)
-  let parts := chunks (128 * r) b
-  let mixed ← parts.mapM (fun c =>
-    if useRfc then some (romixRfc n (blksOfBytes c)) else smixI n (blksOfBytes c))
-  let b' := (mixed.map bytesOfBlks).flatten
-  pure ((pbkdf2Blocks pw b' 1 ((dkLen + 31) / 32) 1).take dkLen)
+/-- B' = f(B_0) ‖ f(B_1) ‖ … ‖ f(B_(k−1)) over consecutive c-byte blocks of B (f may fail) -/
+def mapChunksM (c : Nat) (f : Bytes → Option Bytes) : Nat → Bytes → Option Bytes
+  | 0, _ => some []
+  | k+1, l => (f (l.take c)).bind fun h => (mapChunksM c f k (l.drop c)).map (h ++ ·)
+
+/-- scryptROMix on one 128r-byte block: L3 (`useRfc = true`) or L2 -/
+def romixBytes (useRfc : Bool) (n : Nat) (c : Bytes) : Option Bytes :=
+  (if useRfc then some (romixRfc n (blksOfBytes c)) else smixI n (blksOfBytes c)).map bytesOfBlks
+
+/-- RFC 7914 §6: B = PBKDF2(P, S, 1, p·128·r); B_i = ROMix(B_i); DK = PBKDF2(P, B, 1, dkLen) -/
+def scryptSpec (useRfc : Bool) (pw salt : Bytes) (n r p dkLen : Nat) : Option Bytes :=
+  let b := (pbkdf2Blocks pw salt 1 ((p * 128 * r + 31) / 32) 1).take (p * 128 * r)
+  (mapChunksM (128 * r) (romixBytes useRfc n) p b).map fun b' =>
+    (pbkdf2Blocks pw b' 1 ((dkLen + 31) / 32) 1).take dkLen
 
 end XC.C16
